@@ -559,6 +559,31 @@ func init() {
 }
 
 func init() {
+	ext("golang.org/x/sync/errgroup.WithContext", "errgroup.WithContext(p): (non-nil group, fresh child context of p)", func(c *ExtCtx) Val {
+		g := c.fresh(0, "errgroup")
+		c.st.assume("(distinct " + g.T + " 0)")
+		ctx := c.newCtx(c.args[0], "ctx")
+		c.inheritDeadline(ctx, c.args[0])
+		return c.tuple(g, ctx)
+	})
+	ext("(*golang.org/x/sync/errgroup.Group).Go", "errgroup.Group.Go(f): runs f on a new goroutine (the closure's captures clause is proved where it is created); writes no goat state", func(c *ExtCtx) Val {
+		return Val{Typ: types.NewTuple()}
+	})
+	ext("(*golang.org/x/sync/errgroup.Group).Wait", "errgroup.Group.Wait(): blocks until the group's functions returned; any error", func(c *ExtCtx) Val {
+		return c.fresh(0, "errgroup.err")
+	})
+}
+
+func init() {
+	ext("fnvalue:goat.NewConnection", "NewConnection(id): user dial function (A-user): (conn, err) with err == nil ==> conn != nil; writes no goat state", func(c *ExtCtx) Val {
+		r := c.fresh(0, "dial.conn")
+		e := c.fresh(1, "dial.err")
+		c.st.assume("(=> (= " + e.T + " 0) (distinct " + r.T + " 0))")
+		return c.tuple(r, e)
+	})
+}
+
+func init() {
 	ext("fnfield:H.goat.Proxy.rpcIntercepter", "RpcIntercepter(hdr): user code; free to rewrite the header's addressing fields (Destination, Source, Method, Headers); touches nothing else", func(c *ExtCtx) Val {
 		for _, a := range externalWrites["fnfield:H.goat.Proxy.rpcIntercepter"] {
 			c.st.havoc(a)
